@@ -4,34 +4,71 @@ reduced form), the bounded derivation search is a sound certificate, and removin
 keeps the verdict.
 -/
 import Pfl.Spec.Indexed
+import Pfl.Proofs.IndexedLemmas
 namespace Pfl
 namespace IG
+open Pfl.IG.Lem
 
 /-- a derivation found by the bounded search is a derivation -/
 theorem derivable_sound (G : IG) (fuel : Nat) (a : String) (σ : List String)
     (h : G.derivable fuel a σ = true) : G.Derivable a σ := by
-  sorry
+  induction fuel generalizing a σ with
+  | zero => simp [derivable] at h
+  | succ n ih =>
+    simp only [derivable, List.any_eq_true] at h
+    obtain ⟨r, hr, h⟩ := h
+    cases r with
+    | end_ a' t =>
+      simp only [decide_eq_true_eq] at h
+      subst h; exact .end_ hr
+    | prod a' b f =>
+      simp only [Bool.and_eq_true, decide_eq_true_eq] at h
+      obtain ⟨rfl, h⟩ := h
+      exact .prod hr (ih _ _ h)
+    | cons f a' b =>
+      cases σ with
+      | nil => simp at h
+      | cons g σ' =>
+        simp only [Bool.and_eq_true, decide_eq_true_eq] at h
+        obtain ⟨⟨rfl, rfl⟩, h⟩ := h
+        exact .cons hr (ih _ _ h)
+    | dup a' b c =>
+      simp only [Bool.and_eq_true, decide_eq_true_eq] at h
+      obtain ⟨⟨rfl, h1⟩, h2⟩ := h
+      exact .dup hr (ih _ _ h1) (ih _ _ h2)
 
 /-- meaning of a mark `(A, E)`: whenever all of `E` derive terminal words with a stack, so does `A` -/
 theorem marks_sound (G : IG) (fuel : Nat) (M : List Mark) (h : G.markSaturate fuel G.initMarks = some M)
     (a : String) (E : List String) (hm : (a, E) ∈ M) (σ : List String)
-    (hE : ∀ b ∈ E, G.Derivable b σ) : G.Derivable a σ := by
-  sorry
+    (hE : ∀ b ∈ E, G.Derivable b σ) : G.Derivable a σ :=
+  marks_good G fuel M h (a, E) hm σ hE
 
 /-- completeness of the marking for the empty stack -/
 theorem marks_complete (G : IG) (fuel : Nat) (M : List Mark)
     (h : G.markSaturate fuel G.initMarks = some M) (a : String) (ha : a ∈ G.nonTerminals)
-    (hd : G.Derivable a []) : (a, []) ∈ M := by
-  sorry
+    (hd : G.Derivable a []) : (a, []) ∈ M :=
+  marks_complete' G fuel M h a ha hd
 
 /-- `is_empty()`: whenever the fixpoint is reached, the answer is emptiness of the language -/
 theorem isEmpty_iff (G : IG) (fuel : Nat) (b : Bool) (h : G.isEmpty fuel = some b) :
     b = true ↔ ¬ G.NonEmpty := by
-  sorry
+  unfold isEmpty at h
+  obtain ⟨M, hM, rfl⟩ := Option.map_eq_some_iff.mp h
+  simp only [Bool.not_eq_true', decide_eq_false_iff_not]
+  constructor
+  · intro hn hne
+    exact hn (marks_complete G fuel M hM G.start (start_mem_nonTerminals G) hne)
+  · intro hne hm
+    exact hne (marks_sound G fuel M hM G.start [] hm [] (by simp))
 
 /-- `remove_useless_rules()` keeps the verdict -/
 theorem removeUseless_nonEmpty (G : IG) : G.removeUseless.NonEmpty ↔ G.NonEmpty := by
-  sorry
+  unfold NonEmpty
+  constructor
+  · intro h
+    exact derivable_mono (removeUseless_rules_sub G) h
+  · intro h
+    exact removeUseless_derivable h (Reach.refl _)
 
 end IG
 end Pfl
